@@ -84,11 +84,13 @@ def run_case(rng, idx, tier, lane, ctx):
             # against the size of the flows of the DEFINITION (sum over events of |rate| x |magnitudes|) at random points
             Rref, Vref = ref.R, ref.V
             worst = 0.0
-            syms_ = sorted(tot.free_symbols | Rref.free_symbols, key=lambda q: q.name)
+            syms_ = set(tot.free_symbols | Rref.free_symbols)
+            for c_ in ref.flow_terms():
+                syms_ |= sympy.sympify(c_).free_symbols
+            syms_ = sorted(syms_, key=lambda q: q.name)
             for _ in range(5):
                 sub = {q: sympy.Float(rng.uniform(0.3, 3.0), 30) for q in syms_}
-                flow = sum(abs(sympy.N(Rref[j].subs(sub), 30)) * sum(abs(sympy.N(Vref[i, j].subs(sub), 30)) for i in range(Vref.shape[0]))
-                           for j in range(Vref.shape[1]))
+                flow = sum(abs(sympy.N(sympy.sympify(c_).subs(sub), 30)) for c_ in ref.flow_terms())
                 worst = max(worst, float(abs(sympy.N(tot.subs(sub), 30)) / (flow + sympy.Float(10) ** -30)))
             counters["symbolic_sums_judged_numerically"] = counters.get("symbolic_sums_judged_numerically", 0) + 1
             if worst > 1e-12:
